@@ -17,6 +17,10 @@ FIXED_EPOCH = 1_700_000_000
 DEFAULT_DEBUG = [False]
 # every transport of the world hands received data to the library in one recycled bytearray (set by a check around such configurations)
 RECYCLE_RX = [False]
+# the APIClient is constructed before the loop that later runs it exists (``cli = APIClient(...)`` at module level, then
+# ``asyncio.run(main(cli))``): asyncio.get_event_loop() answers with some other loop at construction time
+FOREIGN_LOOP_CLIENT = [False]
+_FOREIGN_LOOP: list[Any] = []  # one per process, never run, never closed
 
 
 class _TimeShim:
@@ -284,15 +288,21 @@ class ConnWorld(World):
             from aioesphomeapi.client import APIClient
 
             kw: dict[str, Any] = {} if keepalive is None else {"keepalive": keepalive}  # None = the library's default
-            self.client = APIClient(
-                addresses[0],
-                6053,
-                password,
-                noise_psk=noise_psk,
-                expected_name=expected_name,
-                addresses=list(addresses),
-                **kw,
-            )
+            other = None
+            if FOREIGN_LOOP_CLIENT[0]:
+                from asyncio import events as _events
+
+                if not _FOREIGN_LOOP:
+                    _FOREIGN_LOOP.append(asyncio.new_event_loop())
+                other = _FOREIGN_LOOP[0]
+                _events._set_running_loop(None)
+                asyncio.set_event_loop(other)
+            try:
+                self.client = self._new_client(APIClient, addresses, password, noise_psk, expected_name, kw)
+            finally:
+                if other is not None:
+                    asyncio.set_event_loop(None)
+                    _events._set_running_loop(self.loop)
             if debug:
                 self.client.set_debug(True)
         else:
@@ -308,6 +318,10 @@ class ConnWorld(World):
             )
             self.conn = APIConnection(self.params, self._on_stop, debug, None)
         self._fed = 0  # bytes of client output already given to the noise device
+
+    @staticmethod
+    def _new_client(APIClient: Any, addresses: Any, password: Any, noise_psk: Any, expected_name: Any, kw: dict[str, Any]) -> Any:
+        return APIClient(addresses[0], 6053, password, noise_psk=noise_psk, expected_name=expected_name, addresses=list(addresses), **kw)
 
     def _on_stop(self, expected: bool) -> None:
         st = self.conn.connection_state.name if self.conn is not None else "?"
